@@ -34,8 +34,8 @@ META = {
     "technique": "symbolic execution of the real adapters on z3 reals (acceptance statistics, positions, settings symbolic); z3 "
                  "refutes difference from the documented estimators; explorer-enumerated partitions / search outcomes",
     "explanation": "bounded SMT check over all histories of bounded length",
-    "bounds": {"quick": {"dual_averaging_updates": 4, "chains": "1-3", "positions": "<= 4 (dim 1-2)", "search_iters": 5},
-               "thorough": {"dual_averaging_updates": 6, "positions": "<= 5"}},
+    "bounds": {"quick": {"dual_averaging_updates": 4, "chains": "1-3", "positions": "<= 4 (dim 1-2) for the variance adapter, 2 for the dense covariance adapter", "search_iters": 5},
+               "thorough": {"dual_averaging_updates": 6, "positions": "<= 5 (variance), <= 3 (covariance)"}},
     "outside": "floating-point stability for large offsets relative to the spread (a round-off property; exact arithmetic cannot "
                "see it); histories longer than the bound",
     "stubs": ["math.exp / math.log as imported into mici.adapters: uninterpreted EXP/LOG on symbolic arguments", "x**kappa: uninterpreted POW",
@@ -310,17 +310,18 @@ def cases(tier):
         out.append(Case(f"dual/chains/{red}", run_group, {"probs": [("dual", {"T": 2, "n_chain": 3 if th else 2, "reducer": red})]}, timeout_s=900))
     for cov in (False, True):
         for dim in ((1, 2) if not cov else (2,)):
-            for n in ((2, 3, 4, 5) if th else (2, 3, 4)):
+            for n in (((2, 3, 4, 5) if not cov else (2, 3)) if th else (2, 3, 4)):
                 parts = _partitions(n, 3)
                 if not th and n == 4:
                     parts = [p for p in parts if max(p) <= 1] + [(0, 1, 2, 2), (2, 0, 1, 0), (1, 1, 2, 0)]
                 if cov and not th:
                     # symbolic Cholesky of a dense 2x2 covariance is expensive: a representative set in the quick tier
-                    parts = {2: [(0, 0), (0, 1)], 3: [(0, 0, 0), (0, 0, 1), (0, 1, 0), (0, 1, 2), (1, 0, 0)], 4: [(0, 0, 1, 1), (0, 1, 2, 2)]}[n]
+                    # (two samples in one chain / in two chains; longer histories, > 25 min each, are thorough-tier only)
+                    parts = {2: [(0, 0), (0, 1)], 3: [], 4: []}[n]
                 probs = [("variance", {"n": n, "dim": dim, "assign": p, "cov": cov}) for p in parts]
                 per = 1 if cov else 8
                 for g in range(0, len(probs), per):
-                    out.append(Case(f"{'cov' if cov else 'var'}/dim{dim}/n{n}/g{g // per}", run_group, {"probs": probs[g:g + per]}, timeout_s=1500))
+                    out.append(Case(f"{'cov' if cov else 'var'}/dim{dim}/n{n}/g{g // per}", run_group, {"probs": probs[g:g + per]}, timeout_s=3600 if th else 800))
         out.append(Case(f"{'cov' if cov else 'var'}/too_few", run_group, {"probs": [("too_few", {"cov": cov})]}, timeout_s=300))
     out.append(Case("search", case_search, {"max_iters": 6 if th else 5}, timeout_s=900))
     return out
